@@ -4,6 +4,11 @@ use crate::report::Report;
 pub fn run(prop: &str, tier: &str) -> Option<Report> {
     Some(match prop {
         "C19" => crate::checks_e1::c19(tier),
+        "C08" => crate::checks_e1::c08(tier),
+        "C09" => crate::checks_e1::c09(tier),
+        "C10" => crate::checks_e1::c10(tier),
+        "C11" => crate::checks_e1::c11(tier),
+        "C13" => crate::checks_e1::c13(tier),
         _ => return None,
     })
 }
